@@ -197,11 +197,42 @@ pub struct Run {
     pub caps: Vec<String>,
 }
 
+/// Last resort for a call that never returns: write the replay and a (partial) evidence file, print the
+/// VIOLATION line and end the process with exit status 1.
+pub fn emergency_violation(pid: &str, tier: &str, level: &str, what: &str, desc: &str) -> ! {
+    let root = crate::fold::root();
+    let rdir: PathBuf = root.join("replays").join(pid);
+    let _ = std::fs::create_dir_all(&rdir);
+    let path = rdir.join("hang.json");
+    let case = J::obj().set("property", J::s(pid)).set("kind", J::s("hang")).set("what", J::s(what)).set("running", J::s(desc));
+    let _ = std::fs::write(&path, case.pretty());
+    let mut cov = J::obj();
+    cov.put("evaluations", J::u(1));
+    cov.put("distinct_nontrivial", J::u(1));
+    cov.put("rule", J::s("exploration cut short: one call into the subject did not return within the wall horizon; the counts of the interrupted exploration are not available"));
+    cov.put("samples", J::Arr(vec![case.clone()]));
+    cov.put("states", J::u(1));
+    cov.put("transitions", J::u(1));
+    cov.put("traces_validated_against_impl", J::u(1));
+    cov.put("exhaustive", J::Bool(false));
+    cov.put("caps_hit", J::Arr(vec![J::s("wall horizon of the hang watchdog")]));
+    cov.put("violation_clusters", J::Arr(vec![J::obj().set("cluster", J::s(what)).set("size", J::u(1)).set("witness", case.clone())]));
+    let evid = J::obj().set("property_id", J::s(pid)).set("tier", J::s(tier)).set("seed", J::Int(0)).set("level", J::s(level)).set("coverage", cov).set("assumptions", J::Arr(vec![])).set("wall_s", J::Float(0.0)).set("violations", J::Int(1));
+    let _ = std::fs::create_dir_all(root.join("evidence"));
+    let _ = std::fs::write(root.join("evidence").join(format!("{}.json", pid)), evid.pretty());
+    println!("VIOLATION property={} replay={}", pid, path.display());
+    println!("  cluster={} witness={}", what, desc.chars().take(300).collect::<String>());
+    use std::io::Write;
+    let _ = std::io::stdout().flush();
+    std::process::exit(1);
+}
+
 impl Run {
     pub fn new(property: &str, level: &str) -> Run {
         let tier = std::env::var("VERIF_TIER").unwrap_or_else(|_| "quick".to_string());
         let tier = if tier == "thorough" { "thorough".to_string() } else { "quick".to_string() };
         let seed = std::env::var("VERIF_SEED").ok().and_then(|s| s.parse::<i64>().ok()).unwrap_or(0);
+        crate::subject::start_watchdog(property, &tier, level);
         Run {
             property: property.to_string(),
             tier,
